@@ -752,8 +752,11 @@ func (g *Gen) genBool(sc *Scope, d int) *Expr {
 		return Bin("=", g.Expr(TLInt, sc, d-1, false), g.Expr(TLInt, sc, d-1, false))
 	case c < 75:
 		return Bin("=", g.Expr(TRec, sc, d-1, false), g.Expr(TRec, sc, d-1, false))
-	case c < 82:
+	case c < 78:
 		return Bin("~", g.Expr(TInt, sc, d-1, false), g.Expr(TLInt, sc, d-1, false))
+	case c < 82:
+		// the list form: every item of the left list occurs in the right list
+		return Bin("~", g.Expr(TLInt, sc, d-1, false), g.Expr(TLInt, sc, d-1, false))
 	case c < 86:
 		return Bin("~", Str([]string{"a", "b", "c"}[g.n(3, "key")]), g.Expr(TRec, sc, d-1, false))
 	case c < 90:
